@@ -1,6 +1,7 @@
 import Flowjaxv.Gen.Dist
 import Flowjaxv.Model.ToDist
 import Flowjaxv.Model.Ctors
+import Flowjaxv.Model.Triangular
 /-!
 # The provided parametric families, wired exactly as their constructors wire them (C05)
 
@@ -15,7 +16,16 @@ What is hand-written (and therefore tied by the correspondence in `tools/props/c
 *which* pieces each constructor plugs together, the elementwise lifting to `n` independent
 dimensions, the accessors, and the mixture (`jax.nn.log_softmax`, `jax.scipy.special.logsumexp`).
 
-A distribution's "key" in the model is the base sample itself (the PRNG is JAX's).
+`MultivariateNormal(loc, covariance)` is `Transformed(StandardNormal((dim,)), TriangularAffine(loc,
+linalg.cholesky(covariance)))`: the Cholesky factorisation is a numerical primitive, so the model takes the
+factor `chol` (lower triangular, positive diagonal, `chol cholᵀ = covariance`) as its parameter and wires the
+hand model of `TriangularAffine` (`Model/Triangular.lean`, constructor `Tri.init`: SoftPlus-reparameterised
+diagonal, `_to_triangular`) under the generated `Transformed`.  The correspondence feeds the model with
+`jnp.linalg.cholesky(covariance)` and compares with the real `MultivariateNormal(loc, covariance)`.
+
+A distribution's "key" in the model is the base sample itself (the PRNG is JAX's): what `jr.normal`,
+`jr.uniform`, `jr.gumbel`, `jr.cauchy`, `jr.t`, `jr.laplace`, `jr.exponential`, `jr.logistic` and
+`jr.categorical` return is a trusted primitive (every `_Standard…._sample` is exactly one such call).
 -/
 open Gen
 
@@ -114,6 +124,39 @@ def stdVec (lps : List (α → α)) : Distn (List α) Unit (List α) α :=
 def lifted (comps : List (Comp α)) : Distn (List α) Unit (List α) α :=
   (Transformed.mk (stdVec (comps.map Prod.fst)) (Bij.elementwise (comps.map Prod.snd))).toDist
 
+/-! ### `MultivariateNormal` -/
+/-- `StandardNormal((n,))`: `_log_prob x = jstats.norm.logpdf(x).sum()`, `_sample = jr.normal(key, (n,))` -/
+def stdNormalVec (n : Nat) : Distn (List α) Unit (List α) α :=
+  stdVec (List.replicate n StandardNormal.logProb)
+
+/-- `jnp.broadcast_to(loc, (dim,))` for a `loc` of one entry (shape `()` or `(1,)`) or of `dim` entries -/
+def broadcastLoc (loc : List α) (n : Nat) : List α :=
+  match loc with
+  | [l] => List.replicate n l
+  | _ => loc
+
+/-- `A @ A.T` for a list-of-rows matrix -/
+def matMulT (A : List (List α)) : List (List α) := A.map (fun ri => A.map (fun rj => Jnp.dot ri rj))
+
+/-- the unwrapped `MultivariateNormal.bijection` for the Cholesky factor `chol`:
+`TriangularAffine(loc, chol)` (`lower=True`).  `none` = the constructor raises (`chol` not square,
+a diagonal entry rejected by the SoftPlus reparameterisation, `loc` not broadcastable to `(dim,)`). -/
+def mvnBijection (loc : List α) (chol : List (List α)) : Option (Tri.TriAffine α) :=
+  let loc' := broadcastLoc loc chol.length
+  if loc'.length != chol.length then none else Tri.init true chol loc'
+
+/-- `MultivariateNormal(loc, covariance)` given `chol = linalg.cholesky(covariance)` -/
+def mvn (loc : List α) (chol : List (List α)) : Option (Distn (List α) Unit (List α) α) :=
+  (mvnBijection loc chol).map (fun t => (Transformed.mk (stdNormalVec chol.length) t.toBij).toDist)
+
+/-- `MultivariateNormal.loc` = `bijection.loc` -/
+def mvnLoc (loc : List α) (chol : List (List α)) : Option (List α) :=
+  (mvnBijection loc chol).map (fun t => t.loc)
+
+/-- `MultivariateNormal.covariance` = `cholesky @ cholesky.T`, `cholesky = unwrap(bijection.triangular)` -/
+def mvnCovariance (loc : List α) (chol : List (List α)) : Option (List (List α)) :=
+  (mvnBijection loc chol).map (fun t => matMulT t.triangular)
+
 /-! ### mixtures (`VmapMixture`) -/
 /-- maximum of a list (`0` for the empty list, which never occurs: at least one component) -/
 def listMax : List α → α
@@ -140,9 +183,29 @@ def logNormWeights (ws : List α) : List α := logSoftmax (ws.map Transc.log)
 def mixtureLogProb (lps ws : List α) : α :=
   logsumexp (List.zipWith (· + ·) lps (logNormWeights ws))
 
-end Families
+/-- `VmapMixture._sample`: `key1, key2 = jr.split(key)`, `component = jr.categorical(key1,
+log_normalized_weights)`, every array leaf of the vmapped `dist` is indexed by `component`
+(`tree_map(leaf[component])` — a traced index: JAX clamps it into range) and that component's `_sample(key2)`
+is returned.  The model's key is the pair (categorical draw, second key).  `none` for zero components
+(`leaf[component]` on an empty leading axis raises). -/
+def mixtureTake {β : Type} (comps : List β) (component : Nat) : Option β :=
+  comps[min component (comps.length - 1)]?
 
-/-- The last line of the public `log_prob`: `jnp.where(jnp.isnan(lps), -jnp.inf, lps)`.
-Float only: `ℝ` has no NaN (over `ℝ` the theorems are stated on the support, where the private
-`_log_prob` is finite; outside the support the behaviour is covered by the correspondence). -/
-def Families.nanToNegInf (x : Float) : Float := if x.isNaN then -(1.0 / 0.0) else x
+def mixtureSample {X C K : Type} (comps : List (Distn X C K α)) (key : Nat × K) (c : C) : Option X :=
+  (mixtureTake comps key.1).map (fun d => d.sample key.2 c)
+
+/-- the whole `VmapMixture` after unwrapping, for components whose points are `X`:
+`_log_prob` = `logsumexp(vmap(_log_prob)(x) + log_normalized_weights)`, `_sample` as above (`default` is
+never returned when there is at least one component), `_sample_and_log_prob` is the inherited default
+`x = _sample(key); (x, _log_prob(x))` (the GENERATED `DistCore.defaultSampleLp`). -/
+def vmapMixture {X C K : Type} [Inhabited X] (comps : List (Distn X C K α)) (ws : List α) :
+    Distn X C (Nat × K) α :=
+  (DistCore.mk (fun key c => (mixtureSample comps key c).getD default)
+    (fun x c => mixtureLogProb (comps.map (fun d => d.logProb x c)) ws)).toDist
+
+/-- The last line of the public `log_prob`, `jnp.where(jnp.isnan(lps), -jnp.inf, lps)`, for any scalar
+type with IEEE comparison (`x == x` is false exactly for NaN); `-(1 / 0)` is `-inf`.
+Run at `Float`, proved at `EF` (`Proofs/FamiliesEF.lean`). -/
+def publicLp (x : α) : α := if x == x then x else -(1 / 0)
+
+end Families
